@@ -338,7 +338,7 @@ class CurveFit:
                 lPoints, tangent1, recTHat2, error, cornerTolerance, segmentsRemaining
             )
             if lbeziers:
-                segmentsRemaining = segmentsRemaining - len(lbeziers)
+                segmentsRemaining = maxSegments - len(lbeziers)
             rbeziers = self._fitCurve(
                 rPoints, recTHat1, tangent2, error, cornerTolerance, segmentsRemaining
             )
